@@ -5,5 +5,6 @@ CONSTANTS
   KeepHist = FALSE
   GateAtomic = FALSE
   NonIdemRetry = TRUE
+  Defect_WaitResultsOnly = FALSE
 VIEW View
 INVARIANTS NonIdemNeverRetried
